@@ -265,3 +265,173 @@ for _mode in ("RGB", "RGBA"):
     for _bg in (True, False):
         block_unit(_mode, _bg)
         block_unit(_mode, _bg, pixels=True)
+
+
+# ------------------------------------------------------------------------------------------------ split_cells=True: the cell structure
+# What the urwid canvas relies on (C17): with split_cells=True every line of the render is W cells, each an optional colour prefix
+# followed by one glyph, separated by exactly one NUL (none after the last cell); the first cell of every line has a prefix; and a
+# prefix is self-contained for its run: it sets the background (or resets all attributes) and, unless the run's glyph is a blank,
+# the foreground too.  Checked on the real body with a monitor of the writes instead of the VT machine.
+def block_cells_unit(mode, bg_known):
+    @unit("C17", f"block:BlockImage._render_image[{mode},bg={'known' if bg_known else 'unknown'},split_cells]/cell-structure")
+    def u(ctx, mode=mode, bg_known=bg_known):
+        eng = ctx.engine(f"C17/block._render_image[{mode},bg={'known' if bg_known else 'unknown'},split_cells]", "C17")
+        eng.default_replay = {"C17": "C17.content", "C01": "C01.render_block"}
+        eng.inv_props = ("C17",)
+        st = State()
+        W, H = z3.Ints("W H")
+        st.pc += [W >= 1, H >= 1]
+        self_, on_kitty, bg = block_world(ctx, eng, st, mode, bg_known, W, H)
+        bl = ctx.ns("term_image.image.block")
+        BGP, FGP, RESET = bl.d["SGR_BG_DIRECT"].split("%")[0], bl.d["SGR_FG_DIRECT"].split("%")[0], bl.d["SGR_DEFAULT"]
+        UP, LO = bl.d["UPPER_PIXEL"], bl.d["LOWER_PIXEL"]
+        st.ghost["m"] = dict(cells=z3.IntVal(0), lines=z3.IntVal(0), pending_nul=z3.BoolVal(False), bg=z3.BoolVal(False), fg=z3.BoolVal(False),
+                             in_prefix=z3.BoolVal(False), first_has_prefix=z3.BoolVal(True), done=z3.BoolVal(False))
+
+        def ob(e, s, name, goal):
+            e.oblige(name, s, goal, kind="structure")
+
+        def write(e, s, recv, a, k):
+            s = e.fork(s)
+            m = dict(s.ghost["m"])
+            x = a[0]
+            items = list(x.items) if isinstance(x, TS) else [x]
+            first = items[0] if items else ""
+            at_boundary = z3.Or(m["pending_nul"], m["cells"] == 0)
+
+            def start_prefix():
+                # the first SGR after glyphs opens a new prefix: what the previous one had set is no longer relied on
+                m["bg"] = z3.If(m["in_prefix"], m["bg"], False)
+                m["fg"] = z3.If(m["in_prefix"], m["fg"], False)
+                m["in_prefix"] = z3.BoolVal(True)
+            if isinstance(first, str) and first.startswith(RESET) and len(items) == 1:
+                rest = first[len(RESET):]
+                if rest == "\n":
+                    ob(e, s, "line-complete:W-cells,no-NUL-after-the-last-cell", z3.And(m["cells"] == W, z3.Not(m["pending_nul"])))
+                    m.update(cells=z3.IntVal(0), lines=m["lines"] + 1, pending_nul=z3.BoolVal(False), in_prefix=z3.BoolVal(False), bg=z3.BoolVal(False), fg=z3.BoolVal(False))
+                elif rest == "":
+                    # either the reset that ends the last line, or the prefix of a transparent run
+                    is_end = z3.And(m["cells"] == W, z3.Not(m["pending_nul"]))
+                    ob(e, s, "attribute-reset-only-at-a-cell-boundary-or-after-the-last-cell", z3.Or(at_boundary, is_end))
+                    start_prefix()
+                    m["bg"], m["fg"] = z3.BoolVal(True), z3.BoolVal(True)      # default colours: nothing earlier shows through
+                    m["done"] = is_end
+                else:
+                    raise Unsupported(f"text after a reset: {rest!r}")
+            elif isinstance(first, str) and first.startswith(BGP) and all(not isinstance(p_, (tstr.Rep, tstr.Text)) for p_ in items):
+                ob(e, s, "colour-sequence-only-at-a-cell-boundary", at_boundary)
+                start_prefix()
+                m["bg"] = z3.BoolVal(True)
+            elif isinstance(first, str) and first.startswith(FGP) and all(not isinstance(p_, (tstr.Rep, tstr.Text)) for p_ in items):
+                ob(e, s, "colour-sequence-only-at-a-cell-boundary", at_boundary)
+                start_prefix()
+                m["fg"] = z3.BoolVal(True)
+            elif len(items) == 1 and isinstance(first, tstr.Rep):
+                body = first.ts.items
+                if not (len(body) == 1 and isinstance(body[0], str) and len(body[0]) == 2 and body[0][1] == "\0" and body[0][0] in (" ", UP, LO)):
+                    raise Unsupported(f"repeated text {body!r}")
+                glyph = body[0][0]
+                n = to_z3(as_arith(first.n))
+                ob(e, s, "cells-follow-a-NUL-or-start-the-line", z3.Implies(n >= 1, at_boundary))
+                ob(e, s, "prefix-self-contained:background-set(or-reset),foreground-set-unless-the-glyph-is-a-blank", z3.Implies(n >= 1, z3.And(m["bg"], z3.BoolVal(glyph == " ") if glyph == " " else m["fg"])))
+                ob(e, s, "first-cell-of-a-line-has-a-prefix", z3.Implies(z3.And(n >= 1, m["cells"] == 0), m["in_prefix"]))
+                m["cells"] = m["cells"] + Max(n, 0)
+                m["pending_nul"] = z3.If(n >= 1, True, m["pending_nul"])
+                m["in_prefix"] = z3.If(n >= 1, False, m["in_prefix"])
+            elif first == "" and len(items) <= 1:
+                pass
+            else:
+                raise Unsupported(f"write of {x!r} in split-cell mode")
+            s.ghost["m"] = m
+            return [(None, s)]
+        eng.methods[("StringIO", "write")] = write
+        eng.methods[("StringIO", "tell")] = lambda e, s, recv, a, k: [(Rec("bufpos", {"back": 0}), s)]
+        eng.theory |= {"bufpos"}
+        eng.methods[("bufpos", "__binop__")] = lambda e, s, v, a, k: [(Rec("bufpos", {"back": v.f["back"] + a[0]}), s)] if not is_sym(a[0]) else _unsup_pos()
+
+        def _unsup_pos():
+            raise Unsupported("symbolic buffer position")
+
+        def seek(e, s, recv, a, k):
+            p_ = a[0]
+            if not (isinstance(p_, Rec) and p_.name == "bufpos" and p_.f["back"] == 1):
+                raise Unsupported("seek to another position")
+            s = e.fork(s)
+            m = dict(s.ghost["m"])
+            ob(e, s, "the-character-dropped-at-the-end-of-a-line-is-the-NUL-after-its-last-cell", m["pending_nul"])
+            m["pending_nul"] = z3.BoolVal(False)
+            s.ghost["m"] = m
+            return [(None, s)]
+        eng.methods[("StringIO", "seek")] = seek
+        eng.methods[("StringIO", "getvalue")] = lambda e, s, recv, a, k: [(Rec("rendered", {"m": dict(s.ghost["m"])}), s)]
+        img0 = st.new("PIL.Image", {"mode": "src"})
+
+        def outer_inv(s, i, N):
+            m = s.ghost["m"]
+            return z3.And(N == H, to_z3(s.lookup("row_no")) == 2 * i, m["lines"] == z3.If(i < H, i, H - 1),
+                          z3.Implies(i < H, z3.And(m["cells"] == 0, z3.Not(m["pending_nul"]), z3.Not(m["in_prefix"]))),
+                          z3.Implies(i == H, z3.And(m["cells"] == W, z3.Not(m["pending_nul"]))))
+
+        def inner_inv(s, j, N):
+            m = s.ghost["m"]
+            n = to_z3(s.lookup("n"))
+            return z3.And(N == W, m["cells"] + n == j, n >= 0, m["cells"] >= 0, m["pending_nul"] == (m["cells"] > 0),
+                          m["lines"] == s.ghost["cur_line"], to_z3(s.lookup("row_no")) == 2 * s.ghost["cur_line"] + 2, s.ghost["cur_line"] >= 0, s.ghost["cur_line"] < H,
+                          in_range(s.lookup("cluster1")), in_range(s.lookup("cluster2")))
+
+        def T3(nm):
+            return tuple(z3.Int(f"{nm}.{c}") for c in "rgb")
+
+        def havoc_inner(e, s, tag):
+            for nm in ("n", "a_cluster1", "a_cluster2", "a1", "a2"):
+                if nm in s.env:
+                    s.env[nm] = z3.Int(f"{nm}!{tag}")
+            for nm in ("cluster1", "cluster2", "px1", "px2"):
+                if nm in s.env:
+                    s.env[nm] = T3(f"{nm}!{tag}")
+            s.ghost["m"] = dict(cells=z3.Int(f"m_cells!{tag}"), lines=z3.Int(f"m_lines!{tag}"), pending_nul=z3.Bool(f"m_nul!{tag}"), bg=z3.Bool(f"m_bg!{tag}"),
+                                fg=z3.Bool(f"m_fg!{tag}"), in_prefix=z3.Bool(f"m_inp!{tag}"), first_has_prefix=z3.BoolVal(True), done=z3.BoolVal(False))
+
+        def havoc_outer(e, s, tag):
+            havoc_inner(e, s, tag)
+            for nm in ("n", "a_cluster1", "a_cluster2", "a1", "a2"):
+                s.env[nm] = z3.Int(f"{nm}!{tag}")
+            for nm in ("cluster1", "cluster2", "px1", "px2"):
+                s.env[nm] = T3(f"{nm}!{tag}")
+            s.env["row_no"] = z3.Int(f"row_no!{tag}")
+            s.env["rgb_pair"] = s.env["a_pair"] = Opaque("pair")
+        import ast as _ast
+        fnode = ctx.fn(BLOCK, "BlockImage._render_image")
+        loops = sorted([x for x in _ast.walk(fnode) if isinstance(x, _ast.For)], key=lambda x: (x.lineno, x.col_offset))
+        KNOWN = {"n", "a_cluster1", "a_cluster2", "a1", "a2", "cluster1", "cluster2", "px1", "px2", "row_no", "rgb_pair", "a_pair", "no_alpha", "r", "g", "b"}
+        specs = {}
+        for lid, (hv, iv) in enumerate(((havoc_outer, outer_inv), (havoc_inner, inner_inv)), 1):
+            unknown = unknown_loop_locals(fnode, loops[lid - 1], KNOWN) if lid <= len(loops) else {}
+
+            def hv2(e, s, tag, hv=hv, unknown=unknown):
+                hv(e, s, tag)
+                return havoc_unknown_locals(e, [s], unknown, tag)
+            specs[lid] = LoopSpec(iv, hv2)
+        eng.invariants = specs
+        orig_for_symbolic = eng.for_symbolic
+
+        def for_symbolic(n, seq, s0, lid, spec):
+            if lid == 2:
+                s0.ghost["cur_line"] = to_z3(s0.ghost["m"]["lines"])
+            return orig_for_symbolic(n, seq, s0, lid, spec)
+        eng.for_symbolic = for_symbolic
+        st.env.update(self=self_, img=img0, alpha=Opaque("alpha"), frame=z3.Bool("frame"), split_cells=True)
+        outs = run_function(eng, fnode, st)
+        for kind, val, s in outs:
+            if kind != "return":
+                eng.oblige(f"no-exception:{getattr(val, 'cls', kind)}", s, False, kind="raise")
+                continue
+            m = val.f["m"]
+            eng.oblige("H-lines-of-W-cells,ends-with-the-reset-after-the-last-cell", s, z3.And(m["lines"] == H - 1, m["cells"] == W, z3.Not(m["pending_nul"]), m["done"]), kind="post")
+        return eng.obligations
+    return u
+
+
+for _mode in ("RGB", "RGBA"):
+    for _bg in (True, False):
+        block_cells_unit(_mode, _bg)
